@@ -4,11 +4,12 @@ import vlib, gen, gen_dispatch, gen_stats
 from vlib import log, ROOT
 
 TRUSTED = [
-    "Lean 4.33.0 kernel; axioms allowed: propext, Classical.choice, Quot.sound (audited with #print axioms on every run)",
-    "tools/translate*.py (Rust tokenizer; extraction of tables, constants and match-arm lists; statement-by-statement translation of the method bodies of BufBitWriter, BufBitReader, BitReader, the len_* functions and the straight-line code writers/readers into lean/Dsi/Gen; fail closed)",
-    "correspondence check: harness/ (Rust, runs the real library), lean/Main.lean driver (compiled Lean model), tools/gen.py generators, tools/vlib.py comparison",
-    "Lean compiler for the driver (differential leg only)",
-    "rustc/LLVM, core/std integer primitives, std::io, common_traits casts",
+    "Lean 4.33.0 kernel; axioms allowed: propext, Classical.choice, Quot.sound (audited with #print axioms on every listed theorem on every run)",
+    "tools/translate*.py with the parsers rstok/rsbody/rsbodyx/rsx/rscps.py: regenerate lean/Dsi/Gen from the Rust source on every run (tables, constants, match-arm lists, and statement-by-statement method bodies of nearly every source file; DESIGN.md 4.1-bis); they fail closed; audited adversarially (audit/REPORT.md)",
+    "tools/hygiene.py + tools/hygiene_expected.json: the structural guard (item inventory of the crate pinned; Props/HygieneGen.clean_Cnn per property); a reviewed structural change of the crate needs a re-pin",
+    "correspondence check: harness/ (Rust, runs the real library), lean/Main.lean driver (compiled Lean model), tools/gen*.py generators, tools/vlib.py comparison; ghdriver (generated-vs-hand witness search, only consulted when an obligation fails)",
+    "Lean compiler for the drivers (differential leg only)",
+    "rustc/LLVM, core/std integer primitives, std::io (Cursor, read_exact, write_all), std::sync::Mutex, common_traits casts; 64-bit little-endian host",
 ]
 
 
@@ -361,7 +362,7 @@ def run_check(pid, tier, seed, replay, t0, skip_proofs=False):
         gh_replayed=gh_nr,
     )
     vlib.write_evidence(pid, tier, seed, cov, wall, len(viol), [
-        'theorems are about the Lean model; the model is tied to the code by the translator (tables, constants, match arms) and by this differential run',
+        'theorems are about the Lean model; the model is tied to the code by the translators (tables, constants, match arms, method bodies regenerated from the source and proved equal to the hand model) and by this differential run',
         'optimised-build behaviour at debug-only panic points (model outcome D) is unspecified and not compared'])
     for l in out_lines:
         print(l)
